@@ -130,8 +130,17 @@ def judge(ck, name, module, lines_per_beh, consts=None, chunks=1, note=None):
     0-based index of the rejected line inside the behaviour (per-call traces) or the rejected call number
     (per-behaviour traces, from TRACE-AT)."""
     n = len(lines_per_beh)
-    chunks = max(1, min(chunks, n // 200 + 1))
-    bounds = [n * i // chunks for i in range(chunks + 1)]
+    sizes = [sum(len(l) for l in bl) for bl in lines_per_beh]
+    total = sum(sizes)
+    # balanced by bytes; no chunk above ~100 MB (TLC holds the whole chunk in memory), none below a few hundred behaviours
+    chunks = max(1, min(max(chunks, total // 100_000_000 + 1), n // 200 + 1))
+    bounds, acc, nxt = [0], 0, 1
+    for i, sz in enumerate(sizes):
+        acc += sz
+        while nxt < chunks and acc >= total * nxt / chunks:
+            bounds.append(i + 1)
+            nxt += 1
+    bounds += [n] * (chunks + 1 - len(bounds))
     res = {"bad": {}, "void": {}, "off": 0, "events": 0}
     lock = threading.Lock()
     errs = []
@@ -150,7 +159,7 @@ def judge(ck, name, module, lines_per_beh, consts=None, chunks=1, note=None):
                     f.write(ln + "\n")
                 k += len(bl)
         try:
-            r = xtlc(module, workers=1, env={"TRACE": path}, consts=consts, xmx="5g", timeout=3000)
+            r = xtlc(module, workers=1, env={"TRACE": path}, consts=consts, xmx="4g", timeout=3000)
             t = vlib.parse_tla_tuple_ints(r.out)
             if not t or t[0] != k:
                 log(r.out[-3000:])
@@ -326,7 +335,7 @@ def cb_model(ck, tier):
     q = tier == "quick"
     r = xtlc("XCircuitBreakerMC", workers=3 if q else 6, timeout=3000,
              consts=dict(CB_TIME, FTs="{1, 2}" if q else "{1, 2, 3}", STs="{1, 2}" if q else "{1, 2, 3}",
-                         MaxSteps=6 if q else 8))
+                         MaxSteps=5 if q else 8))
     ck.add_tlc("XCircuitBreakerMC: 6 invariants + 7 step properties, documented contract", r)
     # the code as written (the failure that restarts the window is not held against the threshold)
     r = xtlc("XCircuitBreakerMC", workers=1, expect_violation=True,
@@ -334,14 +343,15 @@ def cb_model(ck, tier):
     ck.add_tlc("XCircuitBreakerMC as coded, failure_threshold=1 (counterexample expected)", r, note="violated: %s" % r.violation)
     if r.violation != "ClosedBelowThreshold":
         ck.drift("XCircuitBreakerMC with Contract=FALSE no longer violates ClosedBelowThreshold (got %s)" % r.violation)
-    r = xtlc("XCircuitBreakerMC", workers=2, consts=dict(CB_TIME, FTs="{2, 3}", STs="{1, 2}", Contract="FALSE", MaxSteps=5))
+    r = xtlc("XCircuitBreakerMC", workers=2, consts=dict(CB_TIME, FTs="{2}" if q else "{2, 3}", STs="{1, 2}", Contract="FALSE",
+                                                       MaxSteps=4 if q else 6))
     ck.add_tlc("XCircuitBreakerMC as coded, failure_threshold >= 2: same invariants hold", r)
 
 
 def cb_generate(ck, tier):
     q = tier == "quick"
     beh = []
-    cover = [(2, 2)] if q else [(f, s) for f in (1, 2, 3) for s in (1, 2, 3)]
+    cover = [(2, 2), (1, 2)] if q else [(f, s) for f in (1, 2, 3) for s in (1, 2, 3)]
     for ft, st in cover:
         r = xtlc("XCircuitBreakerMC", cfg="XCircuitBreakerCover.cfg", workers=1,
                  consts=dict(CB_TIME, FTs="{%d}" % ft, STs="{%d}" % st))
@@ -357,7 +367,7 @@ def cb_generate(ck, tier):
     return beh
 
 
-def cb_replay_judge(ck, beh, tier, tag, threads=112):
+def cb_replay_judge(ck, beh, tier, tag, threads=160):
     bpath = write_behaviours("cb." + tag, beh)
     tpath = os.path.join(scratch(), "x.cb.%s.%d.ndjson" % (tag, uniq()))
     stats = xlab("cb", ["--behaviours", bpath, "--out", tpath, "--threads", threads])
@@ -384,9 +394,22 @@ def cb_replay_judge(ck, beh, tier, tag, threads=112):
 
 def run_cb(tier):
     ck = Check("XCB", tier)
-    cb_model(ck, tier)
+    # the model check runs while the behaviours sleep on the real struct
+    merr = []
+
+    def model():
+        try:
+            cb_model(ck, tier)
+        except Exception as e:
+            merr.append(e)
+
     beh = cb_generate(ck, tier)
+    mt = threading.Thread(target=model)
+    mt.start()
     rec, res, stats = cb_replay_judge(ck, beh, tier, "main")
+    mt.join()
+    if merr:
+        raise merr[0]
     good = [rec[i] for i in range(len(rec)) if i not in res["bad"] and i not in res["void"]]
     teeth(ck, "cb", "XCircuitBreakerTrace", good, per_call=True)
     ck.cov["traces_validated_against_impl"] += len(good)
@@ -406,17 +429,16 @@ def run_cb(tier):
 def lru_generate(ck, tier):
     q = tier == "quick"
     beh = []
-    de = 4 if q else 5
-    plans = [("idx", 0, de)] + [("cache", c, de) for c in (1, 2, 3)]
-    for kind, cap, d in plans:
-        r = xtlc("XLruGen", workers=2, consts={"Kind": '"%s"' % kind, "Cap": cap, "MaxOps": d, "NK": 3}, timeout=3000)
-        ck.add_tlc("XLruGen exhaustive %s cap=%d depth=%d, 3 keys" % (kind, cap, d), r, note="%d behaviours" % len(r.json_lines))
-        beh += r.json_lines
-    n, d = (1500, 14) if q else (15000, 24)
-    for kind, cap, nk in [("idx", 0, 4), ("idx", 7, 5), ("cache", 1, 4), ("cache", 2, 4), ("cache", 3, 5), ("cache", 4, 5)]:
-        r = xtlc("XLruGen", simulate=n, depth=d + 2, seed_=seed() + cap,
-                 consts={"Kind": '"%s"' % kind, "Cap": cap, "MaxOps": d, "NK": nk})
-        ck.add_tlc("XLruGen simulate %s cap=%d num=%d steps=%d, %d keys" % (kind, cap, n, d, nk), r)
+    d = 4 if q else 5
+    r = xtlc("XLruGen", workers=3 if q else 6, timeout=3000,
+             consts={"Kinds": '{"idx", "cache"}', "Caps": "{1, 2, 3}", "MaxOps": d, "NK": 3})
+    ck.add_tlc("XLruGen exhaustive depth=%d, 3 keys: idx + cache cap 1..3 (ModelOk)" % d, r, note="%d behaviours" % len(r.json_lines))
+    beh += r.json_lines
+    n, d = (1500, 14) if q else (12000, 22)
+    for kinds, caps, nk in [('{"idx"}', "{1}", 4), ('{"cache"}', "{1, 2, 3, 4}", 4), ('{"idx", "cache"}', "{2, 3, 5}", 5)]:
+        r = xtlc("XLruGen", simulate=n, depth=d + 2, seed_=seed() + nk + len(caps), timeout=3000,
+                 consts={"Kinds": kinds, "Caps": caps, "MaxOps": d, "NK": nk})
+        ck.add_tlc("XLruGen simulate %s caps=%s num=%d steps=%d, %d keys" % (kinds, caps, n, d, nk), r)
         beh += r.json_lines
     return beh
 
@@ -424,7 +446,7 @@ def lru_generate(ck, tier):
 def lru_replay_judge(ck, beh, tier, tag):
     bpath = write_behaviours("lru." + tag, beh)
     tpath = os.path.join(scratch(), "x.lru.%s.%d.ndjson" % (tag, uniq()))
-    stats = xlab("lru", ["--behaviours", bpath, "--out", tpath])
+    stats = xlab("lru", ["--behaviours", bpath, "--out", tpath, "--threads", 4])
     os.remove(bpath)
     rec = read_trace(tpath, per_call=False)
     os.remove(tpath)
@@ -467,18 +489,19 @@ AL_TIME = {"Interval": 60, "Waits": "{0, 20, 100}", "Margin": 25}
 def alog_generate(ck, tier):
     q = tier == "quick"
     beh = []
-    plans = [(2, "interval", 3), (1, "interval", 2), (3, "new", 2)] if q else \
-            [(1, "interval", 3), (2, "interval", 3), (3, "interval", 3), (2, "new", 3), (2, "interval", 4)]
-    for cap, ctor, d in plans:
-        r = xtlc("XAccessLoggerGen", workers=2, timeout=3000,
-                 consts=dict(AL_TIME, Cap=cap, Ctor='"%s"' % ctor, MaxOps=d, AltHandle="TRUE"))
-        ck.add_tlc("XAccessLoggerGen exhaustive cap=%d ctor=%s depth=%d" % (cap, ctor, d), r, note="%d behaviours" % len(r.json_lines))
+    plans = [("{2}", '{"interval"}', 3), ("{1, 3}", '{"interval", "new"}', 2)] if q else \
+            [("{1, 2, 3}", '{"interval", "new"}', 3), ("{2}", '{"interval"}', 4)]
+    for caps, ctors, d in plans:
+        r = xtlc("XAccessLoggerGen", workers=2 if q else 4, timeout=3000,
+                 consts=dict(AL_TIME, Caps=caps, Ctors=ctors, MaxOps=d, AltHandle="TRUE"))
+        ck.add_tlc("XAccessLoggerGen exhaustive caps=%s ctors=%s depth=%d (ModelOk)" % (caps, ctors, d), r,
+                   note="%d behaviours" % len(r.json_lines))
         beh += r.json_lines
-    n, d = (500, 12) if q else (4000, 20)
-    for cap, ctor, ni in [(1, "interval", 2), (2, "interval", 3), (3, "interval", 3), (5, "new", 4)]:
-        r = xtlc("XAccessLoggerGen", simulate=n, depth=d + 2, seed_=seed() + cap,
-                 consts=dict(AL_TIME, Cap=cap, NI=ni, Ctor='"%s"' % ctor, MaxOps=d, AltHandle="FALSE"))
-        ck.add_tlc("XAccessLoggerGen simulate cap=%d ctor=%s num=%d steps=%d" % (cap, ctor, n, d), r)
+    n, d = (1500, 12) if q else (15000, 20)
+    for caps, ctors, ni in [("{1, 2, 3}", '{"interval"}', 3), ("{2, 5}", '{"interval", "new"}', 4)]:
+        r = xtlc("XAccessLoggerGen", cfg="XAccessLoggerSim.cfg", simulate=n, depth=d + 2, seed_=seed() + ni, timeout=3000,
+                 consts=dict(AL_TIME, Caps=caps, NI=ni, Ctors=ctors, MaxOps=d))
+        ck.add_tlc("XAccessLoggerGen simulate caps=%s ctors=%s num=%d steps=%d" % (caps, ctors, n, d), r)
         beh += r.json_lines
     return beh
 
@@ -529,11 +552,11 @@ def usage_generate(ck, tier):
     ck.add_tlc("XUsageGen exhaustive depth=%d (CellOk, RoundTrip, FailedKeeps, Detached, PersistPure)" % d, r,
                note="%d behaviours" % len(r.json_lines))
     beh += r.json_lines
-    n, d = (2500, 14) if q else (25000, 24)
-    r = xtlc("XUsageGen", simulate=n, depth=d + 2, seed_=seed(), consts={"MaxOps": d})
+    n, d = (3000, 14) if q else (40000, 24)
+    r = xtlc("XUsageGen", cfg="XUsageSim.cfg", simulate=n, depth=d + 2, seed_=seed(), consts={"MaxOps": d})
     ck.add_tlc("XUsageGen simulate num=%d steps=%d" % (n, d), r)
     beh += r.json_lines
-    r = xtlc("XUsageGen", simulate=n // 5, depth=d + 2, seed_=seed() + 1, consts={"MaxOps": d, "NT": 3, "NP": 1})
+    r = xtlc("XUsageGen", cfg="XUsageSim.cfg", simulate=n // 5, depth=d + 2, seed_=seed() + 1, consts={"MaxOps": d, "NT": 3, "NP": 1})
     ck.add_tlc("XUsageGen simulate 3 tenants, 1 path num=%d steps=%d" % (n // 5, d), r)
     beh += r.json_lines
     return beh
